@@ -229,7 +229,9 @@ name_st = st.one_of(
 
 TARGETS = ['readme.txt', '../up', '/abs/target', '/', '.', '..', '../../x/y', 'dangling-nowhere', 'sub/dir/file',
            'ünï/目標', 'x' * 200, '/'.join(['c' * 50] * 8), 'a b/c d', '/etc/passwd', 'a',
-           '\U0001f600/link', 'y' * 255]
+           '\U0001f600/link', 'y' * 255,
+           # valid but not in normal form: must be carried verbatim
+           'sub/', './readme.txt', 'sub//file', 'sub/../readme.txt', 'sub/.', './', '../', 'a/./b']
 
 
 def twin_name(name, ref):
